@@ -723,18 +723,9 @@ func Cmp(op string, a, b *Term) *Term {
 
 // maxConst returns an upper bound (unsigned) for a term if it is a constant tree.
 func maxConst(t *Term) (uint64, bool) {
-	if t.konst {
-		return t.val, true
-	}
-	if t.ctree {
-		a, _ := maxConst(t.args[1])
-		b, _ := maxConst(t.args[2])
-		if a > b {
-			return a, true
-		}
-		return b, true
-	}
-	return 0, false
+	// upper bound evident from the term (memoised; a plain recursion over an ite-tree of constants is
+	// exponential in the DAG depth)
+	return ubound(t)
 }
 
 // ctreeLeaves lists (condition, value) pairs of a constant tree.
@@ -1006,4 +997,28 @@ func termStr(t *Term, depth int) string {
 		as = append(as, termStr(a, depth-1))
 	}
 	return "(" + t.op + " " + strings.Join(as, " ") + ")"
+}
+
+// termHistogram prints which operators fill the term table (development aid).
+func termHistogram() {
+	cnt := map[string]int{}
+	args := map[string]int{}
+	for _, t := range termTab {
+		cnt[t.op]++
+		args[t.op] += len(t.args)
+	}
+	wc := map[int]int{}
+	var mx uint64
+	for _, t := range termTab {
+		if t.op == "bv" {
+			wc[t.w]++
+			if t.val > mx && t.w == 64 && t.val < 1<<62 {
+				mx = t.val
+			}
+		}
+	}
+	fmt.Printf("TERMHIST consts by width %v max small 64-bit %d\n", wc, mx)
+	for op, n := range cnt {
+		fmt.Printf("TERMHIST %-10s %9d avg args %.1f\n", op, n, float64(args[op])/float64(n))
+	}
 }
